@@ -183,6 +183,14 @@ impl LspContext {
         test_connection
     }
 
+    /// Verification seam: same as `listen_memory`, available when built with `--cfg mos_verif`
+    #[cfg(mos_verif)]
+    pub(crate) fn listen_memory_verif(&mut self) -> Connection {
+        let (connection, test_connection) = Connection::memory();
+        self.connection = Some((Arc::new(connection), None));
+        test_connection
+    }
+
     pub fn add_shutdown_handler(&mut self) -> ShutdownReceiverHandle {
         let (s, r) = crossbeam_channel::bounded(1);
         let handler_id = HANDLER_ID.fetch_add(1, Ordering::Relaxed);
@@ -257,6 +265,11 @@ impl LspContext {
     #[cfg(not(test))]
     fn working_directory(&self) -> PathBuf {
         use path_absolutize::Absolutize;
+        // Verification seam: working directory of the simulated process
+        #[cfg(mos_verif)]
+        if let Some(cwd) = mos_simrt::env::cwd() {
+            return cwd;
+        }
         PathBuf::from(".").absolutize().unwrap().into()
     }
 
